@@ -63,6 +63,11 @@ def run_state(case):
         raise Violation("a State compares equal to a plain list/tuple", key="equality")
     if len({sa, sa2}) != 1:
         raise Violation("equal states are distinct set members", key="hash")
+    # integer occupations that happen to be numpy integers (a row of an integer array) are the same Fock state
+    sn = S([np.int64(x) for x in a]) if len(a) % 2 else S(list(np.array(a, dtype=np.int64)))
+    if sn != sa or hash(sn) != hash(sa) or str(sn) != str(sa) or len({sa, sn}) != 1:
+        raise Violation(f"State built from numpy integers {a}: str {str(sn)!r}, equal to the plain-int state: "
+                        f"{sn == sa}, same hash: {hash(sn) == hash(sa)}", key="numpy-int-occupations")
     # counts
     if len(sa) != len(a) or sa.n_modes != len(a) or sa.n_photons != sum(a) or list(sa) != a or sa.s != a:
         raise Violation(f"len/n_modes/n_photons/iteration inconsistent for {a}", key="counts")
